@@ -161,7 +161,12 @@ func checkC16(w *World, c *Check) {
 				fl[fieldIndex(w.Type(e.GoType), "Type")] = StrLit(e.Name)
 				st.heap[obj] = &StructVal{T: sv.T, F: fl}
 				ptr := &PtrVal{Alts: []PtrAlt{{C: TTrue, O: obj}}}
-				ex.Call(st, w.Func("FlattenProperties"), []Value{&IfaceVal{Alts: []IfaceAlt{{C: TTrue, T: T, V: ptr}}}}, nil)
+				in := &IfaceVal{Alts: []IfaceAlt{{C: TTrue, T: T, V: ptr}}}
+				out, _ := ex.Call(st, w.Func("FlattenProperties"), []Value{in}, nil).(*IfaceVal)
+				if out != nil {
+					c.Add(&Obligation{Name: grp + "/returns-the-item", Common: append([]*Term{ex.NoPanic()}, ex.assumes...), Goal: ex.ifaceEq(out, in), Pos: "FlattenProperties", Funcs: []string{"FlattenProperties"},
+						Replay: c16DispatchReplay(e.Name, e.GoType)})
+				}
 				var called []*Term
 				for _, rec := range ex.calls {
 					if rec.Name == want[0] {
